@@ -24,6 +24,7 @@ import (
 
 	"github.com/VKCOM/tl/internal/vkgo/pkg/basictl"
 	"github.com/VKCOM/tl/pkg/rpc"
+	rpctl "github.com/VKCOM/tl/pkg/rpc/internal/gen/tl"
 )
 
 func vEnvInt(name string, def int) int {
@@ -594,6 +595,47 @@ func (s *vServer) handler(ctx context.Context, hctx *rpc.HandlerContext) error {
 	return nil
 }
 
+type vCanceller struct{}
+
+func (vCanceller) CancelLongpoll(lh rpc.LongpollHandle) {}
+func (vCanceller) WriteEmptyResponse(lh rpc.LongpollHandle, resp *rpc.HandlerContext) error {
+	return rpc.ErrLongpollNoEmptyResponse
+}
+
+// kind 5 requests are answered through the longpoll path: StartLongpoll in the sync handler, then
+// FinishLongpoll + SendLongpollResponse from another goroutine a little later
+func (s *vServer) syncHandler(ctx context.Context, hctx *rpc.HandlerContext) error {
+	req := hctx.Request
+	if len(req) < 16 || binary.LittleEndian.Uint32(req) != vMagic || binary.LittleEndian.Uint32(req[12:]) != 5 {
+		return rpc.ErrNoHandler
+	}
+	id := binary.LittleEndian.Uint64(req[4:])
+	body := append([]byte{}, req...)
+	var plan *vCallPlan
+	if p, ok := s.plans.Load(id); ok {
+		plan = p.(*vCallPlan)
+	}
+	s.seen.Store(id, &vSeen{extra: hctx.RequestExtra, tl2: hctx.BodyFormatTL2(), actor: hctx.ActorID()})
+	lh, err := hctx.StartLongpoll(vCanceller{})
+	if err != nil {
+		return err
+	}
+	go func() {
+		time.Sleep(time.Duration(200+id%1500) * time.Microsecond)
+		h, ok := lh.FinishLongpoll()
+		if !ok {
+			return
+		}
+		if plan != nil && plan.UseExtra {
+			h.ResponseExtra = plan.RespExtra
+		}
+		h.Response = append(h.Response, body...)
+		h.Response = binary.LittleEndian.AppendUint64(h.Response, id^0x5555555555555555)
+		h.SendLongpollResponse(nil)
+	}()
+	return nil
+}
+
 func vStartServer(t *testing.T, network string, key string, opts ...rpc.ServerOptionsFunc) *vServer {
 	s := &vServer{hangers: make(chan struct{})}
 	addr := "127.0.0.1:0"
@@ -605,7 +647,7 @@ func vStartServer(t *testing.T, network string, key string, opts ...rpc.ServerOp
 		t.Fatal(err)
 	}
 	s.ln = ln
-	all := []rpc.ServerOptionsFunc{rpc.ServerWithHandler(s.handler), rpc.ServerWithLogf(rpc.NoopLogf)}
+	all := []rpc.ServerOptionsFunc{rpc.ServerWithHandler(s.handler), rpc.ServerWithSyncHandler(s.syncHandler), rpc.ServerWithLogf(rpc.NoopLogf)}
 	if key != "" {
 		all = append(all, rpc.ServerWithCryptoKeys([]string{key}))
 	}
@@ -1159,6 +1201,121 @@ func TestVerifC39(t *testing.T) {
 		}
 		_ = srv.srv.Close()
 	}
+	// graceful shutdown while more connections than workers have pending requests: the drain must respect the limit
+	for round := 0; round < vEnvInt("VERIF_SHUTDOWN", 2); round++ {
+		W := 1 + round%3
+		srv := vStartServer(t, "tcp4", "", rpc.ServerWithMaxWorkers(W))
+		srv.gate = make(chan struct{})
+		nClients := W + 3 + round
+		var wg sync.WaitGroup
+		var okCalls atomic.Int64
+		clients := make([]rpc.Client, nClients)
+		for i := range clients {
+			clients[i] = rpc.NewClient(rpc.ClientWithLogf(rpc.NoopLogf))
+			wg.Add(1)
+			go func(i int) {
+				defer wg.Done()
+				id := uint64(seed)<<30 + uint64(round)<<16 + uint64(i) + 7
+				req := clients[i].GetRequest()
+				req.Body = append(req.Body, vBody(id, 0, 2)...)
+				ctx, cancel := context.WithTimeout(context.Background(), 60*time.Second)
+				defer cancel()
+				resp, err := clients[i].Do(ctx, "tcp4", srv.ln.Addr().String(), req)
+				if err == nil {
+					okCalls.Add(1)
+				}
+				if resp != nil {
+					clients[i].PutResponse(resp)
+				}
+			}(i)
+		}
+		deadline := time.Now().Add(10 * time.Second)
+		for srv.cur.Load() < int64(W) && time.Now().Before(deadline) {
+			time.Sleep(time.Millisecond)
+		}
+		time.Sleep(100 * time.Millisecond) // the other requests are read and queued for a worker
+		srv.srv.Shutdown()
+		time.Sleep(50 * time.Millisecond)
+		if h := srv.high.Load(); h > int64(W) {
+			st.violation("rpc-limits", "workers", fmt.Sprintf("graceful shutdown: %d handlers ran concurrently with a worker limit of %d (%d connections with pending requests)", h, W, nClients), map[string]any{"W": W, "connections": nClients})
+		}
+		close(srv.gate)
+		wg.Wait()
+		if h := srv.high.Load(); h > int64(W) {
+			st.violation("rpc-limits", "workers", fmt.Sprintf("graceful shutdown drain: %d handlers ran concurrently with a worker limit of %d (%d connections with pending requests)", h, W, nClients), map[string]any{"W": W, "connections": nClients})
+		}
+		st.add("shutdown_rounds", 1)
+		st.add("shutdown_calls_served", int(okCalls.Load()))
+		st.dist(fmt.Sprintf("shutdown W=%d conns=%d", W, nClients))
+		for _, c := range clients {
+			_ = c.Close()
+		}
+		_ = srv.srv.Close()
+	}
+	// hostile peer: while request memory is exhausted by blocked handlers, a raw connection sends packet headers of
+	// every client-to-server packet type declaring a large body and then stalls; accounted memory must stay within the limit
+	for hi, tip := range []uint32{rpctl.RpcCancelReq{}.TLTag(), rpctl.RpcClientWantsFin{}.TLTag(), rpctl.RpcInvokeReqHeader{}.TLTag(), 0x12345678} {
+		if hi >= vEnvInt("VERIF_HOSTILE", 4) {
+			break
+		}
+		srv := vStartServer(t, "tcp4", "", rpc.ServerWithMaxWorkers(8), rpc.ServerWithRequestMemoryLimit(1), rpc.ServerWithRequestBufSize(3<<20))
+		srv.gate = make(chan struct{})
+		var wg sync.WaitGroup
+		clients := make([]rpc.Client, 7)
+		for i := range clients {
+			clients[i] = rpc.NewClient(rpc.ClientWithLogf(rpc.NoopLogf))
+			wg.Add(1)
+			go func(i int) {
+				defer wg.Done()
+				req := clients[i].GetRequest()
+				req.Body = append(req.Body, vBody(uint64(seed)<<20+uint64(hi)<<8+uint64(i)+3, 0, 700000)...) // ~2.8 MB
+				ctx, cancel := context.WithTimeout(context.Background(), 60*time.Second)
+				defer cancel()
+				resp, _ := clients[i].Do(ctx, "tcp4", srv.ln.Addr().String(), req)
+				if resp != nil {
+					clients[i].PutResponse(resp)
+				}
+			}(i)
+		}
+		deadline := time.Now().Add(10 * time.Second)
+		for srv.cur.Load() < 5 && time.Now().Before(deadline) {
+			time.Sleep(time.Millisecond)
+		}
+		time.Sleep(100 * time.Millisecond)
+		before, lim := srv.srv.RequestsMemory()
+		raw, err := net.Dial("tcp4", srv.ln.Addr().String())
+		if err == nil {
+			pc := rpc.NewPacketConn(raw, 4096, 4096)
+			if err = pc.HandshakeClient("", nil, false, 1, 0, 5*time.Second, rpc.LatestProtocolVersion); err == nil {
+				if err = pc.WritePacketHeaderUnlocked(tip, 4<<20, 0); err == nil {
+					_ = pc.WritePacketBodyUnlocked(make([]byte, 8))
+					_ = pc.FlushUnlocked()
+				}
+			}
+			var maxSeen int64
+			for i := 0; i < 300; i++ {
+				m, _ := srv.srv.RequestsMemory()
+				if m > maxSeen {
+					maxSeen = m
+				}
+				time.Sleep(time.Millisecond)
+			}
+			if maxSeen > lim {
+				st.violation("rpc-limits", "memory", fmt.Sprintf("hostile peer: a packet header of type %08x declaring a 4 MiB body pushed the accounted request memory to %d (limit %d, %d before)", tip, maxSeen, lim, before), map[string]any{"type": fmt.Sprintf("%08x", tip)})
+			}
+			st.add("hostile_headers_sent", 1)
+			raw.Close()
+		}
+		if err != nil {
+			vEmit(map[string]any{"t": "inconclusive", "msg": "C39 hostile peer could not connect/handshake: " + err.Error()})
+		}
+		close(srv.gate)
+		wg.Wait()
+		for _, c := range clients {
+			_ = c.Close()
+		}
+		_ = srv.srv.Close()
+	}
 	// sustained overload without a gate: many connections, pipelined short calls, workers finishing while new
 	// requests arrive (the wake-up path of the worker pool)
 	sustained := vEnvInt("VERIF_SUSTAINED", 3)
@@ -1291,6 +1448,9 @@ func TestVerifC40(t *testing.T) {
 							plan.ErrCode = 0 // documented to become "Unknown"
 						}
 					}
+					if plan.Kind == 0 && r.Intn(4) == 0 {
+						plan.Kind = 5 // answered through the longpoll path
+					}
 					withTimeout := r.Intn(4) == 0
 					if withTimeout {
 						plan.Extra.SetCustomTimeoutMs(int32(1000 + r.Intn(100000)))
@@ -1322,7 +1482,7 @@ func TestVerifC40(t *testing.T) {
 					if seen.actor != actor {
 						st.violation("rpc-extras", "actor", fmt.Sprintf("call %d: handler saw actor %d, client set %d", id, seen.actor, actor), nil)
 					}
-					st.dist(fmt.Sprintf("reqflags=%08x tl2=%v err=%v", plan.Extra.Flags, plan.TL2, plan.Kind == 1))
+					st.dist(fmt.Sprintf("reqflags=%08x tl2=%v kind=%d", plan.Extra.Flags, plan.TL2, plan.Kind))
 					if i < 2 && w == 0 {
 						st.mu.Lock()
 						st.samples = append(st.samples, map[string]any{"id": id, "tl2": plan.TL2, "request_extra": plan.Extra.String(), "response_extra_set_by_handler": plan.RespExtra.String(), "error": plan.Kind == 1})
@@ -1363,6 +1523,9 @@ func TestVerifC40(t *testing.T) {
 						st.add("response_extras_checked", 1)
 						if wantMasked.Flags != 0 {
 							st.add("response_extras_nonempty", 1)
+						}
+						if plan.Kind == 5 {
+							st.add("longpoll_responses_checked", 1)
 						}
 						cl.PutResponse(resp)
 					}
